@@ -320,8 +320,15 @@ HasParallel(G) == \E i, j \in 1..Len(G.rels) :
 (* Judging an observed result against the bag: ORDER BY fixes the order up *)
 (* to ties, SKIP / LIMIT select positions of that order.                   *)
 (***************************************************************************)
-ObsSame(o, e) ==   \* observed cell (relationships without instance index) vs expected cell
-  SameTuple(o, e)
+(* collect() fixes no order: a collected list is compared as a bag (bagcols = such columns) *)
+SameBag(a, b) ==
+  a[1] = "list" /\ b[1] = "list" /\ Len(a[2]) = Len(b[2]) /\
+  \A i \in 1..Len(a[2]) :
+     Cardinality({j \in 1..Len(a[2]) : Same(a[2][j], a[2][i])}) = Cardinality({j \in 1..Len(b[2]) : Same(b[2][j], a[2][i])})
+SameTupleB(x, y, bagcols) ==
+  Len(x) = Len(y) /\ \A i \in 1..Len(x) : IF i \in bagcols THEN SameBag(x[i], y[i]) ELSE Same(x[i], y[i])
+CountSameB(s, t, bagcols) == Cardinality({i \in 1..Len(s) : SameTupleB(s[i], t, bagcols)})
+BagCols(q) == {i \in 1..Len(q.ret.items) : IsAgg(q.ret.items[i].e) /\ q.ret.items[i].e[2] = "collect"}
 CountSame(s, t) == Cardinality({i \in 1..Len(s) : SameTuple(s[i], t)})
 OrderKeys(t, order) == [k \in 1..Len(order) |-> t[order[k][1]]]
 OrderDirs(order) == [k \in 1..Len(order) |-> order[k][2]]
